@@ -454,6 +454,30 @@ def trailing_frames_sweep(ctx: Ctx, prop: str) -> None:
                         record(ctx, prop, run_spec(spec), "closing-frame-plus-trailing-frames")
 
 
+def duplicate_answers_sweep(ctx: Ctx, prop: str) -> None:
+    """C09/C11: the device answers a pending request twice (or answers and closes) within ONE chunk - the call must still end with its result
+    or a classified error, never with a raw exception, and a following disconnect must still complete."""
+    S = L.default_spec
+    t0 = L.core_start() + 0.001
+    cases = [
+        ("plain-pending-device-info", S(device={"handlers": "slow_device_info"}, program=[["connect"], ["spawn", "device_info"], ["sleep", 3.0], ["disconnect"]]),
+         ["dinfo,dinfo", "dinfo,dinfo,dinfo", "dinfo,peer_disconnect", "dinfo,dinfo,bad_pb", "state,dinfo,dinfo,state", "pong,dinfo,pong,dinfo"]),
+        ("noise-list-entities", S(framing="noise", device={"handlers": "slow_entities"}, program=[["connect"], ["spawn", "list_entities"], ["sleep", 3.0], ["disconnect"]]),
+         ["ldone,ldone", "ldone,state,ldone", "ldone,garbage"]),
+        ("plain-slow-disconnect", S(device={"handlers": "slow_disconnect"}, program=[["connect"], ["sleep", 0.5], ["disconnect"]]),
+         ["dresp,dresp", "dresp,dresp,state", "dresp,eof"]),
+    ]
+    idx = 0
+    for label, bspec, chunks in cases:
+        for ch in chunks:
+            for dt in (0.6, 1.0):
+                idx += 1
+                if not ctx.mine(idx):
+                    continue
+                spec = {**bspec, "faults": [{"kind": "chunk:" + ch, "point": {"t": t0 + dt}, "posclass": "chunk"}]}
+                record(ctx, prop, run_spec(spec), "duplicate-answers/" + label)
+
+
 def connect_fault_sweep(ctx: Ctx, prop: str) -> None:
     """C09: resolver / TCP connect faults (error, hang, delay), alone and with user actions during the wait."""
     S = L.default_spec
